@@ -59,6 +59,16 @@ var c14Templates = []c14Template{
 	{name: "lit_on", metric: true, eitherWay: true, build: func(a, _, r string) string {
 		return "count_over_time(" + a + "[" + r + "]) * on (container) 2"
 	}},
+	// the bool modifier on an arithmetic operator: accepted and ignored, or rejected - after the readers are open
+	{name: "lit_bool_arith", metric: true, eitherWay: true, build: func(a, _, r string) string {
+		return "count_over_time(" + a + "[" + r + "]) * bool 2"
+	}},
+	{name: "lit_bool_arith_left", metric: true, eitherWay: true, build: func(a, _, r string) string {
+		return "2 + bool sum by (container) (count_over_time(" + a + "[" + r + "]))"
+	}},
+	{name: "vec_bool_arith", metric: true, twoSel: true, eitherWay: true, build: func(a, b, r string) string {
+		return "sum by (container) (count_over_time(" + a + "[" + r + "])) - bool sum by (container) (count_over_time(" + b + "[" + r + "]))"
+	}},
 	{name: "lit_ignoring", metric: true, eitherWay: true, build: func(a, _, r string) string {
 		return "2 < bool ignoring (msg) sum by (container) (count_over_time(" + a + "[" + r + "]))"
 	}},
@@ -411,7 +421,7 @@ func (propC14) Gen(r *Rng, run uint64, tier string) *Plan {
 			case kind == FaultCut && fr.Bool(0.4):
 				f.ErrKind = "unexpected"
 			case kind == FaultReadError:
-				f.ErrKind = []string{"", "", "deadline", "closed", "with_data", "reset", "reset", "epipe", "canceled"}[fr.Intn(9)]
+				f.ErrKind = []string{"", "", "deadline", "closed", "with_data", "reset", "reset", "epipe", "canceled", "wraps_unexpected_eof", "wraps_eof"}[fr.Intn(11)]
 			}
 			if open < 0 && fr.Bool(0.4) {
 				// only the first request for this container's log fails (a second one,
@@ -586,7 +596,7 @@ func (propC14) Expand(t *testing.T, p *Plan) []*Plan {
 			if off == len(l.Data) {
 				class = "end"
 			}
-			out = append(out, mk(Fault{Kind: FaultReadError, Container: oc.ID, Open: oc.OpenIdx, Offset: off, ErrKind: []string{"", "with_data", "deadline"}[p.Run%3]}, class, nil))
+			out = append(out, mk(Fault{Kind: FaultReadError, Container: oc.ID, Open: oc.OpenIdx, Offset: off, ErrKind: []string{"", "with_data", "deadline", "wraps_unexpected_eof", "wraps_eof"}[p.Run%5]}, class, nil))
 		}
 		for fi := range l.Ends {
 			for _, fk := range frameKindsAll {
